@@ -91,6 +91,51 @@ fn short_site(site: &str) -> String {
     }
 }
 
+/// A `tracing` subscriber that enables every level and formats every field of every event (so
+/// that the arguments of zlink's log macros are evaluated exactly as under a real subscriber with
+/// TRACE enabled), then throws the text away. zlink logs every message it reads and several error
+/// paths; code that only runs when logging is on is code users run.
+pub struct AllLogs;
+
+impl tracing::Subscriber for AllLogs {
+    fn enabled(&self, _: &tracing::Metadata<'_>) -> bool {
+        true
+    }
+    fn new_span(&self, _: &tracing::span::Attributes<'_>) -> tracing::span::Id {
+        tracing::span::Id::from_u64(1)
+    }
+    fn record(&self, _: &tracing::span::Id, _: &tracing::span::Record<'_>) {}
+    fn record_follows_from(&self, _: &tracing::span::Id, _: &tracing::span::Id) {}
+    fn event(&self, event: &tracing::Event<'_>) {
+        struct Sink(usize);
+        impl tracing::field::Visit for Sink {
+            fn record_debug(&mut self, _field: &tracing::field::Field, value: &dyn std::fmt::Debug) {
+                use std::fmt::Write;
+                let mut s = String::new();
+                let _ = write!(s, "{value:?}");
+                self.0 += s.len();
+            }
+        }
+        event.record(&mut Sink(0));
+    }
+    fn enter(&self, _: &tracing::span::Id) {}
+    fn exit(&self, _: &tracing::span::Id) {}
+}
+
+/// Run `f` with the all-enabled subscriber installed for this thread (`on`) or without one.
+pub fn with_logging<R>(on: bool, f: impl FnOnce() -> R) -> R {
+    if on {
+        tracing::subscriber::with_default(AllLogs, f)
+    } else {
+        f()
+    }
+}
+
+/// Every fourth shard / enumeration index runs with logging enabled.
+pub fn logging_for(index: u64) -> bool {
+    index % 4 == 1
+}
+
 /// Run `shards` independent proptest campaigns of `cases` cases each, in parallel. Every shard's
 /// seed is a pure function of (VERIF_SEED, lane, shard index). A shard stops at its first failure
 /// and shrinks it; the other shards run to the end, so several distinct failures can be reported.
@@ -154,7 +199,7 @@ where
     let mut runner = TestRunner::new(config);
     let strategy = make_strategy();
     let stats = RefCell::new(Stats::default());
-    let result = runner.run(&strategy, |v| {
+    let result = with_logging(logging_for(shard), || runner.run(&strategy, |v| {
         let mut st = stats.borrow_mut();
         st.eval();
         let r = guarded(&v, &mut st, test);
@@ -165,7 +210,7 @@ where
                 Err(TestCaseError::fail(f.message))
             }
         }
-    });
+    }));
     let mut stats = stats.into_inner();
     stats.frozen = false;
     let mut out = Vec::new();
@@ -174,7 +219,7 @@ where
         Err(TestError::Fail(_reason, value)) => {
             // Re-run the minimal case to get its signature (shrinking may have drifted).
             let mut scratch = Stats::default();
-            let fail = match guarded(&value, &mut scratch, test) {
+            let fail = match with_logging(logging_for(shard), || guarded(&value, &mut scratch, test)) {
                 Err(f) => f,
                 Ok(()) => Fail::new(
                     "flaky",
@@ -220,7 +265,7 @@ where
                     }
                     let hi = (lo + block).min(n);
                     for i in lo..hi {
-                        let r = catch_unwind(AssertUnwindSafe(|| f(i, &mut stats)));
+                        let r = catch_unwind(AssertUnwindSafe(|| with_logging(logging_for(i), || f(i, &mut stats))));
                         match r {
                             Ok(fails) => {
                                 for (fail, case) in fails {
